@@ -913,7 +913,8 @@ instantiate! { 34:
     lemma_merge_q = lemma_merge::<Q>();
     lemma_vectored_q = lemma_vectored::<Q>();
 }
-// thorough tier: buffer <= 48 elements, 6-bit values, i16 and f32
+// 48-element / 6-bit instantiations, i16 and f32: NOT registered -- not measured in the time available
+// (lemma_sub_t / lemma_merge_t took 593 s / 325 s when measured alone on a loaded machine)
 instantiate! { 6:
     ms_from_buf_i16 = from_buf_ok::<i16, T>();
     ms_from_buf_f32 = from_buf_ok::<f32, T>();
